@@ -38,7 +38,7 @@ if not hasattr(orch_core, "make_plan_bundle"):
 TURNS = [("T", a, x) for a in ("A", "B") for x in ("apple", "pear fig")]
 EDITS = [("RELABEL",), ("EDGE_W",), ("EDGE_DST",), ("EDGE_NEW",), ("EP", "A"), ("EP", "B")]
 CFGS = [("CFG", "k1"), ("CFG", "thr"), ("CFG", "rank"), ("CFG", "owner"), ("CFG", "days"), ("CFG", "radius"),
-        ("CFG", "tiers")]
+        ("CFG", "tiers"), ("CFG", "tiers_rev")]
 MISC = [("KILL",), ("CLK",), ("DAY",), ("SWITCH",)]
 OPS = TURNS + EDITS + CFGS + MISC
 
@@ -50,6 +50,7 @@ CFG_CHANGES = {
     "days": {"t2": {"exact_recent_days": 1}},
     "radius": {"t1": {"radius_cap": 0}},
     "tiers": {"t2": {"tiers": ["archive"]}},
+    "tiers_rev": {"t2": {"tiers": ["archive", "cluster_semantic", "exact_semantic"]}},
 }
 
 CACHE_CONFIGS = {
@@ -89,11 +90,17 @@ def world_b():
     W._graph(st["store"], "g1",
              [("n1", "apple"), ("n2", "pear"), ("n3", "fig")],
              [("e1", "n1", "n3", 0.9, "supports"), ("e2", "n2", "n3", 0.7, "supports")])
-    st["active_graphs"] = ["g1"]
+    W._graph(st["store"], "g2", [("m1", "plum"), ("m2", "apple"), ("m3", "fig")],
+             [("f1", "m2", "m3", 1.0, "supports"), ("f2", "m3", "m1", 0.5, "supports"), ("f3", "m1", "m1", 0.5, "supports")])
+    W._graph(st["store"], "g3", [("k1", "pear"), ("k2", "quince")], [("h1", "k2", "k1", 0.5, "supports")])
+    st["active_graphs"] = ["g1", "g2", "g3"]
     for e in (W._ep("ep1", "B", "fig tart", 1, "c1", 0.2),
               W._ep("ep2", "A", "pear pear", 2, "c2", 0.9),
               W._ep("ep3", "A", "apple fig crumble", 3, "c1", 0.5),
-              W._ep("ep4", "world", "plum", 50, None, None)):
+              W._ep("ep4", "world", "plum", 50, None, None),
+              W._ep("ep5", "A", "apple", 4, "c3", 0.1),
+              W._ep("ep6", "B", "pear apple", 6, "c3", 0.7),
+              W._ep("ep7", "world", "fig fig", 45, None, None)):
         st["mem_index"].add(e)
     return st
 
@@ -141,7 +148,7 @@ def execute(history, cache_cfg, caches_on, scratch, extra_off=None):
         if "perf" not in CACHE_CONFIGS[cache_cfg]:
             base.pop("perf", None)
     dyn = {}
-    states = [W.make_world("W1"), world_b()]
+    states = [W.make_world("W2"), world_b()]   # W2: three graphs, two of them match "apple" (per-graph cache entries)
     for s in states:
         s["_boot_loaded"] = True
     cur = 0
